@@ -61,6 +61,15 @@ def exact(x):
     return Fraction(*float(x).as_integer_ratio())
 
 
+GRID = 2 ** 48
+
+
+def grid(x):
+    """multiplier values are handed to the model on the dyadic grid 2^-48 (|error| <= 1.8e-15, far inside the tolerance)
+    so that the exact arithmetic of the model stays on short numbers"""
+    return Fraction(round(x * GRID), GRID)
+
+
 def shape_of(c):
     return len(c['img']), len(c['img'][0])
 
@@ -204,7 +213,7 @@ def table(c):
             for b in freq_range(n):
                 keys.add((sn * Fraction(a, m) + cs * Fraction(b, n)) * dp * os_)
         fn = lambda q: float(np.sinc(float(q)))
-    return [(k, exact(fn(k))) for k in sorted(keys)]
+    return [(k, grid(fn(k))) for k in sorted(keys)]
 
 
 # ------------------------------------------------------------------ model side
